@@ -382,4 +382,17 @@ def quietB (swr : Swr) (inp : Input) : Bool :=
   !o.idleOn
 
 
+namespace C05
+
+/-- C05 as monitored: removal rule, move step, and — for a move onto a shard that already holds the
+    target (a move back while the earlier move is unfinished) — the clause C08 shares: whenever an
+    in-sync shard is told to turn a normal copy into an in-transfer one, another in-sync shard holds
+    the target in normal state after the cycle -/
+def okAll (inp : Input) (ob : Obs) : Bool := ok inp ob && C08.dstInSync inp ob
+
+def clauseAll (inp : Input) (ob : Obs) : String :=
+  if !ok inp ob then clause inp ob else if !C08.dstInSync inp ob then "destinationNormal" else ""
+
+end C05
+
 end Kvass.Spec
